@@ -28,6 +28,10 @@ CHECKS = {
     text="TLC (MC_Keywords) builds collections one member at a time - lists of scalars with repeats, Arrays-of-Hashes and Hashes-of-Hashes whose shared attribute is present, absent, repeated or null, and the same list under a key - evaluates max/min/unique/distinct/has_child/name/parent (inverted or not, with and without parameter) with the declarative definitions KwStep of spec/YQuery.tla, checks the set laws (max and !max partition the members, unique and !unique are disjoint, unique within distinct, ...) and emits the expected members; keyword segments after key/index/*/** segments and parent(n) for every depth come from the MC_Query corpus; all cases are replayed into the real Processor.",
     note="Trusted: TLC; KwStep as the reading of C13 / README 'Search Keywords'. Collections of mixed kinds, null attribute values and containers as compared values are informational (documentation silent). Inverted max/min/unique are compared as sets. Bounds: quick = lists <= 3, records <= 3; thorough = lists <= 5, records <= 4.",
     technique="TLA+ declarative keyword semantics + set laws checked by TLC, S->C replay", ref="4/C13"),
+ "C02": dict(
+    text="Corpus: every matching (document, path) case TLC emits from MC_Query (general documents with an anchored scalar and aliases, one- and two-segment paths), a configuration whose map keys and set members are drawn from the escapable punctuation (. / [ ] ( ) ' \" space ^ $ % and combinations), and the keyword collections of MC_Keywords. On every real, non-virtual result the four relations of the statement are evaluated on the real objects: parent[parentref] is the node, the ancestry chain walks from the root to it, str(result.path) in dot and slash notation re-resolves to exactly that node (once per alias place when named by anchor), and a second evaluation reports equal coordinates.",
+    note="Trusted: TLC (enumeration, expected positions); object identity in the loaded ruamel graph. The relations need no oracle; the specification supplies the corpus and which queries match. Bounds as C01 plus 17 punctuation keys / 3 punctuation set members on documents of <= 3 (thorough 4) nodes.",
+    technique="TLC-enumerated corpus (TLA+ generator + selection model) replayed; relations checked on real NodeCoords", ref="4/C02"),
 }
 NA_REASON = "check not built yet in this round (specification family under construction; see DESIGN.md section 9)"
 def main():
